@@ -985,6 +985,32 @@ def r10_flag_writers_and_pairing(facts):
                                 and (b.get("inputs") or [""])[0] == ARRAY and var_of(root) == self_var(base, b) and len(chain) == 1:
                             ok = True
                             why_ok = "flag %s of the by-value array under construction set by the private builder %s" % (chain[-1], b.get("name"))
+                        if not ok and b.get("impl_self") == ARRAY and b.get("impl_trait_def") is None and b["kind"] == "AssocFn" and not b.get("reachable"):
+                            # a private helper of the flag API: every call of it (transitively) sits in tracked / untracked / start_tracking / stop_tracking
+                            def only_from_setters(d, seen):
+                                if d in seen:
+                                    return True
+                                seen.add(d)
+                                callers = []
+                                for b2 in base.bodies:
+                                    for n2 in walk(base.root(b2)):
+                                        if n2.get("k") == "Call" and resolved(n2) == d:
+                                            callers.append(base.body(b2.get("root", b2["def"])) or b2)
+                                if not callers:
+                                    return False
+                                for cb in callers:
+                                    if cb.get("impl_self") == ARRAY and cb.get("impl_trait_def") is None and cb.get("name") in allowed_setters:
+                                        continue
+                                    if cb.get("impl_self") == ARRAY and cb.get("impl_trait_def") is None and not cb.get("reachable") and cb["kind"] == "AssocFn" \
+                                            and (cb.get("inputs") or [""])[0] == ARRAY:
+                                        continue        # a private builder working on the by-value array under construction
+                                    if cb.get("impl_self") == ARRAY and cb.get("impl_trait_def") is None and not cb.get("reachable") and only_from_setters(cb["def"], seen):
+                                        continue
+                                    return False
+                                return True
+                            if only_from_setters(b["def"], set()):
+                                ok = True
+                                why_ok = "flag %s written by %s, a private helper called only by the flag API" % (chain[-1], b.get("name"))
                         c.check(ok, "flag-writer:%s#%s" % (b["def"], chain[-1]), loc(b, n), why_ok,
                                 "flag %s is written (Cell::%s) outside tracked/untracked/start_tracking/stop_tracking" % (chain[-1], mth))
     c.floor("flag write sites", n_w, 4)
@@ -1428,6 +1454,11 @@ def r24_count_protocol(facts):
             """some fact on the path states (previous count) == want_prev"""
             for cond, truth in path_facts(ctx2):
                 cnd = strip(cond)
+                # `let is_last = count == 1; .. if is_last { .. }`: a Boolean bound once to the comparison
+                hops_ = 0
+                while isinstance(cnd, dict) and cnd.get("k") == "VarRef" and cnd["v"] in binds and binds[cnd["v"]][0] == "let" and isinstance(binds[cnd["v"]][1], dict) and hops_ < 3:
+                    cnd = strip(binds[cnd["v"]][1])
+                    hops_ += 1
                 if cnd.get("k") == "Binary" and cnd["op"] in ("Eq", "Ne") and (truth == (cnd["op"] == "Eq")):
                     for x, y in ((cnd["l"], cnd["r"]), (cnd["r"], cnd["l"])):
                         k_ = lit_value(y)
